@@ -72,12 +72,13 @@ def build_case(beh, name, shape_seed=0):
 KEYS = {
     "sub": ["q", "item"], "x": ["item", "now"], "xe": ["item"], "drop": ["item", "ran"],
     "run": ["t", "idle"], "runend": ["ret", "now"], "tadd": ["tid", "kind", "t", "item"],
-    "acreate": ["aid", "oid"], "stop": ["aid"], "fail": ["aid", "code"], "kill": ["aid", "code"],
+    "acreate": ["aid", "oid", "logid"], "stop": ["aid"], "fail": ["aid", "code"], "kill": ["aid", "code"],
     "kille": ["aid"], "owndrop": ["oid", "aid"], "ownclone": ["oid", "oid2", "aid"], "vdrop": ["aid"],
     "notify": ["aid", "cause", "zombie"], "zombie": ["aid", "res"], "mkret": ["rid", "kind"],
     "ret": ["rid", "val"], "retdrop": ["rid"], "retcb": ["rid", "has", "val"],
     "rcall": ["rid", "aid", "has", "val"], "keepown": ["oid"], "keepret": ["rid"],
-    "dropstakker": [], "droppedstakker": [],
+    "dropstakker": [], "droppedstakker": [], "setlogger": ["levels"],
+    "logrec": ["id", "level", "parent", "marker"],
     "tupd": ["tid", "kind", "t", "res"], "tdelb": ["tid"], "tdel": ["tid", "kind", "res"],
     "tact": ["tid", "kind", "res"], "nexp": ["has", "x"],
 }
